@@ -292,6 +292,49 @@ func c09FormatLintCase(origin, typ string) *Case {
 	return cs
 }
 
+// c09UnicodeIndentCase: a string literal that continues on the next
+// physical line, the continuation starting (after ASCII indentation) with a
+// non-ASCII Unicode space: only the ASCII indentation is layout, the
+// Unicode space is part of the text.
+func c09UnicodeIndentCase(sp string, origin string) *Case {
+	atoms := &AtomTable{Coded: true}
+	name := atoms.New(ClsUserName, "name", "names")
+	lit := "\"abc\n    " + sp + "def$\""
+	src := fmt.Sprintf("text %s {\n  %s\n}", name.Placeholder(), lit)
+	label := func() interp.Value { return name.Val }
+	if origin == "inline" {
+		cmd := atoms.New(ClsPlainCmd, "cmd", "")
+		src = fmt.Sprintf("script %s {\n  %s(%s)\n}", name.Placeholder(), cmd.Placeholder(), lit)
+		label = func() interp.Value { return cat(name.Val, "_Text_0") }
+	}
+	prog := &Program{Atoms: atoms, Tops: []interface{}{&TopRaw{Text: src}}}
+	cs := &Case{Name: fmt.Sprintf("c09/unicode-space-starts-continuation-line/%s/U+%04X", origin, []rune(sp)[0]), Prog: prog, NonTrivial: true,
+		Variants: optVariants[:1], Shape: c09Shape{Origin: "continuation:" + origin, Lines: 2}, MaxPaths: 16}
+	cs.Oracle = func(x *OracleCtx) *Violation {
+		res := x.Res["opt"]
+		if res.Err.IsErr || res.Err.Panic != "" {
+			return &Violation{Sub: "accept", Msg: "a well-formed text was rejected: " + interp.ToString(res.Err.Msg) + res.Err.Panic}
+		}
+		got, n := sectionAfterLabel(x, res.Out, label())
+		if n != 1 {
+			return &Violation{Sub: "label", Msg: fmt.Sprintf("the text's label is defined %d times", n)}
+		}
+		all := ""
+		for _, l := range got {
+			ls, ok := l.(string)
+			if !ok {
+				return &Violation{Sub: "text", Msg: "data line is not concrete: " + interp.ToString(l)}
+			}
+			all += ls + "\n"
+		}
+		if !strings.Contains(all, sp+"def$") || !strings.Contains(all, "abc") {
+			return &Violation{Sub: "text", Msg: fmt.Sprintf("the emitted text %q lost a character of the source (expected abc ... %sdef$)", all, sp)}
+		}
+		return nil
+	}
+	return cs
+}
+
 func matchKnownC09(k *KnownFinding, f *Finding) bool {
 	if kindOf(k) == "poryswitch_fallback_type_dropped" {
 		var sh c09Shape
@@ -337,6 +380,9 @@ func RunC09(env *Env, rep *Report) {
 		for _, typ := range []string{"", "ascii", "braille", "custom"} {
 			cases = append(cases, c09FormatLintCase(origin, typ))
 		}
+	}
+	for _, sp := range []string{"\u3000", "\u00a0", "\u2003", "\u0085"} {
+		cases = append(cases, c09UnicodeIndentCase(sp, "text"), c09UnicodeIndentCase(sp, "inline"))
 	}
 	cases = append(cases, c09TwoArgsCase("ascii", ""), c09TwoArgsCase("", "braille"), c09TwoArgsCase("custom", ""), c09TwoArgsCase("braille", "ascii"))
 	for _, first := range []bool{true, false} {
